@@ -173,6 +173,9 @@ c15_layout!(c02_c14_c15_q_layout_4x6_b, FONT_4X6, 9, [("!\n\" ", "!\n\" "), ("!\
 c15_layout!(c02_c14_c15_q_layout_6x10_c, FONT_6X10, 9, [("\n!!", "\n!!"), ("! \r\n\r\n\"", "! \n\n\"")]);
 c15_layout!(c02_c14_c15_q_layout_6x10_d, FONT_6X10, 9, [("", ""), ("!!", "!!")]);
 // skeletons with an empty LAST line (text ending in a line break)
+// a CR that is NOT part of the line ending is an ordinary (unmapped) character with its own cell: only one
+// trailing CR per line is stripped
+c15_layout!(c02_c14_c15_q_layout_4x6_h, FONT_4X6, 9, [("!\r\r\n\"", "!\x7f\n\""), ("\r\r", "\x7f")]);
 c15_layout!(c02_c14_c15_q_layout_6x10_e, FONT_6X10, 9, [("!!\n", "!!\n"), ("\r\n", "\n")]);
 #[cfg(feature = "thorough")]
 c15_layout!(c02_c14_c15_t_layout_6x10_f, FONT_6X10, 9, [("\" !\r\n!\n", "\" !\n!\n")]);
